@@ -2654,3 +2654,573 @@ Proof.
     + rewrite app_length. cbn [length]. lia.
   - rewrite assoc_set_other by auto. destruct (b =? a) eqn:E; [lia|]. rewrite Hpn. apply (H0 b).
 Qed.
+
+(* ================================================================ lists_wf: pending lists strict, nonces in range *)
+Definition lwf (s : bool) (l : txlist) : Prop := (s = true -> strict l = true) /\ Forall nonce_ok (items l).
+Lemma lwf_sub : forall s l l', lwf s l -> incl (items l') (items l) -> strict l' = strict l -> lwf s l'.
+Proof. intros s l l' [A B] I S. split; [rewrite S; auto|]. rewrite Forall_forall in *. auto. Qed.
+Lemma tl_forward_sub : forall l th rm l', tl_forward l th = (rm, l') -> incl (items l') (items l) /\ strict l' = strict l.
+Proof. intros l th rm l' H. unfold tl_forward in H. inversion H; subst. cbn. split; auto. intros x Hx. apply filter_In in Hx. tauto. Qed.
+Lemma tl_filter_sub : forall o l c g drops invs l', tl_filter o l c g = (drops, invs, l') ->
+  incl (items l') (items l) /\ incl invs (items l) /\ strict l' = strict l.
+Proof.
+  intros o l c g drops invs l' H. unfold tl_filter in H. destruct ((costcap l <=? c) && (gascap l <=? g)).
+  { inversion H; subst. repeat split; auto; try apply incl_refl. intros x []. }
+  destruct (strict l); [destruct (filter _ (items l))|]; inversion H; subst; clear H; cbn [items strict]; repeat split; auto;
+    intros x Hx; try (apply order_txs_in in Hx); repeat (apply filter_In in Hx; destruct Hx as [Hx _]); auto; destruct Hx.
+Qed.
+Lemma tl_cap_sub : forall l k drops l', tl_cap l k = Some (drops, l') -> incl (items l') (items l) /\ incl drops (items l) /\ strict l' = strict l.
+Proof.
+  intros l k drops l' H. unfold tl_cap in H. destruct (Z.of_nat (length (items l)) <=? k). { inversion H; subst. repeat split; auto; try apply incl_refl. intros x []. }
+  destruct (k <? 0); [discriminate|]. inversion H; subst. cbn [items strict]. repeat split; auto; intros x Hx;
+    rewrite <- (firstn_skipn (Z.to_nat k) (items l)); apply in_or_app; [left; auto|right; apply in_rev; auto].
+Qed.
+Lemma tl_remove_sub : forall o l t b invs l', tl_remove o l t = (b, invs, l') -> incl (items l') (items l) /\ incl invs (items l) /\ strict l' = strict l.
+Proof.
+  intros o l t b invs l' H. unfold tl_remove in H. destruct (tl_get l (tnonce t)). 2:{ inversion H; subst. repeat split; auto; try apply incl_refl. intros x []. }
+  destruct (strict l); inversion H; subst; clear H; cbn [items strict]; repeat split; auto;
+    intros x Hx; try (apply order_txs_in in Hx); repeat (apply filter_In in Hx; destruct Hx as [Hx _]); auto; destruct Hx.
+Qed.
+Lemma tl_ready_sub : forall l s ready l', tl_ready l s = (ready, l') -> incl (items l') (items l) /\ incl ready (items l) /\ strict l' = strict l.
+Proof.
+  intros l s ready l' H. unfold tl_ready in H. destruct (items l) as [|x r] eqn:E. { inversion H; subst. rewrite E. repeat split; auto; intros y []. }
+  destruct (s <? tnonce x). { inversion H; subst. rewrite E. repeat split; auto; try apply incl_refl. intros y []. }
+  destruct (take_run (tnonce x) (x :: r)) as [a b] eqn:Er. inversion H; subst; clear H. pose proof (take_run_app _ _ _ _ Er) as Ha.
+  cbn [items strict]. rewrite Ha. repeat split; auto; intros y Hy; apply in_or_app; auto.
+Qed.
+Lemma tl_add_lwf : forall s l t bump b old l', tl_add l t bump = (b, old, l') -> lwf s l -> nonce_ok t -> lwf s l'.
+Proof.
+  intros s l t bump b old l' H [A B] Ht. pose proof (tl_add_strict _ _ _ _ _ _ H) as S. split; [rewrite S; auto|].
+  rewrite Forall_forall in *. intros x Hx. destruct (tl_add_items _ _ _ _ _ _ _ H Hx) as [->|Hx']; auto.
+Qed.
+
+Lemma LW_same : forall p q, pending q = pending p -> queue q = queue p -> lists_wf p -> lists_wf q.
+Proof. intros p q Hp Hq H. unfold lists_wf in *. rewrite Hp, Hq. exact H. Qed.
+Lemma LW_qset : forall p q a l', lists_wf p -> lwf false l' -> pending q = pending p -> queue q = assoc_set a l' (queue p) -> lists_wf q.
+Proof.
+  intros p q a l' [HP HQ] C Hp Hq. unfold lists_wf. rewrite Hp, Hq. split; auto. intros b l Hl.
+  destruct (Z.eq_dec b a) as [->|Hne]; [rewrite assoc_set_same in Hl; inversion Hl; subst; apply C|rewrite assoc_set_other in Hl by auto; eauto].
+Qed.
+Lemma LW_pset : forall p q a l', lists_wf p -> lwf true l' -> queue q = queue p -> pending q = assoc_set a l' (pending p) -> lists_wf q.
+Proof.
+  intros p q a l' [HP HQ] [C1 C2] Hq Hp. unfold lists_wf. rewrite Hp, Hq. split; auto. intros b l Hl.
+  destruct (Z.eq_dec b a) as [->|Hne]; [rewrite assoc_set_same in Hl; inversion Hl; subst; auto|rewrite assoc_set_other in Hl by auto; eauto].
+Qed.
+Lemma LW_qdel : forall p q a, lists_wf p -> pending q = pending p -> queue q = assoc_del a (queue p) -> lists_wf q.
+Proof.
+  intros p q a [HP HQ] Hp Hq. unfold lists_wf. rewrite Hp, Hq. split; auto. intros b l Hl.
+  destruct (Z.eq_dec b a) as [->|Hne]; [rewrite assoc_del_same in Hl; discriminate|rewrite assoc_del_other in Hl by auto; eauto].
+Qed.
+Lemma LW_pdel : forall p q a, lists_wf p -> queue q = queue p -> pending q = assoc_del a (pending p) -> lists_wf q.
+Proof.
+  intros p q a [HP HQ] Hq Hp. unfold lists_wf. rewrite Hp, Hq. split; auto. intros b l Hl.
+  destruct (Z.eq_dec b a) as [->|Hne]; [rewrite assoc_del_same in Hl; discriminate|rewrite assoc_del_other in Hl by auto; eauto].
+Qed.
+Lemma LW_plist : forall p a l, lists_wf p -> assoc a (pending p) = Some l -> lwf true l.
+Proof. intros p a l [HP _] H. destruct (HP _ _ H). split; auto. Qed.
+Lemma LW_qlist : forall p a l, lists_wf p -> assoc a (queue p) = Some l -> lwf false l.
+Proof. intros p a l [_ HQ] H. split; [discriminate|eauto]. Qed.
+Lemma LW_list_of : forall p a, lists_wf p -> lwf false (list_of (queue p) a false) /\ lwf true (list_of (pending p) a true).
+Proof.
+  intros p a H. unfold list_of. split.
+  - destruct (assoc a (queue p)) eqn:E; [eapply LW_qlist; eauto|split; [discriminate|constructor]].
+  - destruct (assoc a (pending p)) eqn:E; [eapply LW_plist; eauto|split; [reflexivity|constructor]].
+Qed.
+
+Lemma enqueue_LW : forall p t, lists_wf p -> nonce_ok t -> lists_wf (snd (enqueue_tx p t)).
+Proof.
+  intros p t H Ht. unfold enqueue_tx.
+  change (match assoc (tfrom t) (queue p) with Some l => l | None => new_txlist false end) with (list_of (queue p) (tfrom t) false).
+  destruct (LW_list_of p (tfrom t) H) as [C0 _].
+  destruct (tl_add (list_of (queue p) (tfrom t) false) t (c_bump (conf p))) as [[ins old] l'] eqn:E.
+  pose proof (tl_add_lwf _ _ _ _ _ _ _ E C0 Ht) as C1. destruct ins; cbn [snd].
+  - apply (LW_qset p _ (tfrom t) l' H C1); destruct old; reflexivity.
+  - apply (LW_qset p _ (tfrom t) _ H C0); reflexivity.
+Qed.
+Lemma enqueue_fold_LW : forall ex p, lists_wf p -> Forall nonce_ok ex -> lists_wf (fold_left (fun q x => snd (enqueue_tx q x)) ex p).
+Proof. induction ex as [|x ex IH]; intros p H F; cbn [fold_left]; auto. inversion F; subst. apply IH; auto. apply enqueue_LW; auto. Qed.
+Lemma promote_LW : forall p a t, lists_wf p -> nonce_ok t -> lists_wf (promote_tx p a t).
+Proof.
+  intros p a t H Ht. unfold promote_tx.
+  change (match assoc a (pending p) with Some l => l | None => new_txlist true end) with (list_of (pending p) a true).
+  destruct (LW_list_of p a H) as [_ C0].
+  destruct (tl_add (list_of (pending p) a true) t (c_bump (conf p))) as [[ins old] l'] eqn:E.
+  pose proof (tl_add_lwf _ _ _ _ _ _ _ E C0 Ht) as C1. destruct ins.
+  - match goal with |- lists_wf ?Q => assert (Hq : pending Q = assoc_set a l' (pending p) /\ queue Q = queue p)
+      by (destruct old; cbn; match goal with |- context [match ?X with _ => _ end] => destruct X end; split; reflexivity) end.
+    destruct Hq as [Hp Hq]. apply (LW_pset p _ a l' H C1 Hq Hp).
+  - apply (LW_pset p _ a _ H C0); reflexivity.
+Qed.
+Lemma promote_fold_LW : forall a ready p, lists_wf p -> Forall nonce_ok ready -> lists_wf (fold_left (fun q t => promote_tx q a t) ready p).
+Proof. induction ready as [|t ready IH]; intros p H F; cbn [fold_left]; auto. inversion F; subst. apply IH; auto. apply promote_LW; auto. Qed.
+Lemma Forall_incl : forall A (P : A -> Prop) l l', Forall P l -> incl l' l -> Forall P l'.
+Proof. intros A P l l' H I. rewrite Forall_forall in *. auto. Qed.
+
+Lemma remove_LW : forall o p h, lists_wf p -> lists_wf (remove_tx o p h).
+Proof.
+  intros o p h H. unfold remove_tx. destruct (assoc h (all p)) as [t|]; auto.
+  set (p1 := all_drop p h). assert (H1 : lists_wf p1) by exact H. clearbody p1. clear H p.
+  assert (HQ : lists_wf (match assoc (tfrom t) (queue p1) with
+      | None => p1
+      | Some f => let '(_, _, f') := tl_remove o f t in
+                  if tl_empty f' then set_queue p1 (assoc_del (tfrom t) (queue p1)) else set_queue p1 (assoc_set (tfrom t) f' (queue p1))
+      end)).
+  { destruct (assoc (tfrom t) (queue p1)) as [f|] eqn:Q; auto. destruct (tl_remove o f t) as [[b invs] f'] eqn:R.
+    destruct (tl_remove_sub _ _ _ _ _ _ R) as (I1 & _ & S1). pose proof (lwf_sub _ _ _ (LW_qlist _ _ _ H1 Q) I1 S1) as C.
+    destruct (tl_empty f'); [apply (LW_qdel p1 _ (tfrom t) H1); reflexivity|apply (LW_qset p1 _ (tfrom t) f' H1 C); reflexivity]. }
+  destruct (assoc (tfrom t) (pending p1)) as [pl|] eqn:P; auto.
+  destruct (tl_remove o pl t) as [[b invs] pl'] eqn:R. destruct b; auto.
+  destruct (tl_remove_sub _ _ _ _ _ _ R) as (I1 & I2 & S1). pose proof (LW_plist _ _ _ H1 P) as C0. pose proof (lwf_sub _ _ _ C0 I1 S1) as C.
+  match goal with |- lists_wf (if _ then pn_set ?XX _ _ else _) => assert (H2 : lists_wf XX) end.
+  { apply enqueue_fold_LW; [|eapply Forall_incl; [apply C0|exact I2]].
+    destruct (tl_empty pl'); [apply (LW_pdel p1 _ (tfrom t) H1); reflexivity|apply (LW_pset p1 _ (tfrom t) pl' H1 C); reflexivity]. }
+  match goal with |- lists_wf (if ?c then _ else _) => destruct c end; exact H2.
+Qed.
+Lemma remove_fold_LW : forall o (l : list tx) p, lists_wf p -> lists_wf (fold_left (fun q t => remove_tx o q (thash t)) l p).
+Proof. induction l; intros; cbn [fold_left]; auto. apply IHl. apply remove_LW; auto. Qed.
+
+Lemma pe_account_LW : forall o p a p', lists_wf p -> pe_account o p a = Ok p' -> lists_wf p'.
+Proof.
+  intros o p a p' H0 H. unfold pe_account in H. destruct (assoc a (queue p)) as [l|] eqn:Q; [|inversion H; subst; auto].
+  pose proof (LW_qlist _ _ _ H0 Q) as C0.
+  destruct (tl_forward l (cur_nonce p a)) as [old l1] eqn:F. destruct (tl_forward_sub _ _ _ _ F) as [I1 S1]. pose proof (lwf_sub _ _ _ C0 I1 S1) as C1.
+  set (p1 := drop_all (set_queue p (assoc_set a l1 (queue p))) old) in *.
+  destruct (drop_all_pq old (set_queue p (assoc_set a l1 (queue p)))) as [Pp1 Pq1]. fold p1 in Pp1, Pq1. cbn [pending queue set_queue] in Pp1, Pq1.
+  assert (H1 : lists_wf p1) by (apply (LW_qset p p1 a l1 H0 C1 Pp1 Pq1)). clearbody p1.
+  destruct (tl_filter o l1 (cur_balance p1 a) (maxgas p1)) as [[drops invs] l2] eqn:Fi. destruct (tl_filter_sub _ _ _ _ _ _ _ Fi) as (I2 & _ & S2).
+  pose proof (lwf_sub _ _ _ C1 I2 S2) as C2.
+  set (p2 := drop_all (set_queue p1 (assoc_set a l2 (queue p1))) drops) in *.
+  destruct (drop_all_pq drops (set_queue p1 (assoc_set a l2 (queue p1)))) as [Pp2 Pq2]. fold p2 in Pp2, Pq2. cbn [pending queue set_queue] in Pp2, Pq2.
+  assert (H2 : lists_wf p2) by (apply (LW_qset p1 p2 a l2 H1 C2 Pp2 Pq2)). clearbody p2.
+  destruct (tl_ready l2 (pn_get p2 a)) as [ready l3] eqn:R. destruct (tl_ready_sub _ _ _ _ R) as (I3 & Ir & S3). pose proof (lwf_sub _ _ _ C2 I3 S3) as C3.
+  set (pb := set_queue p2 (assoc_set a l3 (queue p2))) in *.
+  assert (Hb : lists_wf pb) by (apply (LW_qset p2 pb a l3 H2 C3); reflexivity).
+  assert (H3 : lists_wf (fold_left (fun q t => promote_tx q a t) ready pb)) by (apply promote_fold_LW; auto; eapply Forall_incl; [apply C2|exact Ir]).
+  set (p3 := fold_left (fun q t => promote_tx q a t) ready pb) in *. clearbody p3.
+  apply bind_ok in H. destruct H as ([p4 l4] & E1 & E2).
+  assert (H4 : lists_wf p4).
+  { destruct (memZ a (locals p3)); [inversion E1; subst; auto|].
+    destruct (tl_cap l3 (c_aqueue (conf p3))) as [[caps l4']|] eqn:C; [|discriminate]. inversion E1; subst; clear E1.
+    destruct (drop_all_pq caps (set_queue p3 (assoc_set a l4 (queue p3)))) as [Pp4 Pq4]. cbn [pending queue set_queue] in Pp4, Pq4.
+    destruct (tl_cap_sub _ _ _ _ C) as (I4 & _ & S4). apply (LW_qset p3 _ a l4 H3 (lwf_sub _ _ _ C3 I4 S4) Pp4 Pq4). }
+  inversion E2; subst. destruct (tl_empty l4); auto. eapply LW_qdel; eauto; reflexivity.
+Qed.
+Lemma shrink_one_LW : forall p a p', lists_wf p -> shrink_one p a = Ok p' -> lists_wf p'.
+Proof.
+  intros p a p' H0 H. unfold shrink_one in H. destruct (assoc a (pending p)) as [l|] eqn:P; [|discriminate].
+  destruct (tl_cap l (tl_len l - 1)) as [[drops l']|] eqn:C; [|discriminate]. inversion H; subst; clear H.
+  destruct (tl_cap_sub _ _ _ _ C) as (I1 & _ & S1).
+  set (pb := set_pending p (assoc_set a l' (pending p))).
+  assert (Ub : lists_wf pb) by (apply (LW_pset p pb a l' H0 (lwf_sub _ _ _ (LW_plist _ _ _ H0 P) I1 S1)); reflexivity).
+  clearbody pb. clear C. revert pb Ub. induction drops as [|t drops IH]; intros pb Ub; cbn [fold_left]; auto.
+  apply IH. cbv zeta. match goal with |- lists_wf (if ?c then _ else _) => destruct c end; exact Ub.
+Qed.
+Lemma demote_account_LW : forall o p a p', lists_wf p -> demote_account o p a = Ok p' -> lists_wf p'.
+Proof.
+  intros o p a p' H0 H. unfold demote_account in H. destruct (assoc a (pending p)) as [l|] eqn:P; [|inversion H; subst; auto].
+  pose proof (LW_plist _ _ _ H0 P) as C0.
+  destruct (tl_forward l (cur_nonce p a)) as [old l1] eqn:F. destruct (tl_forward_sub _ _ _ _ F) as [I1 S1]. pose proof (lwf_sub _ _ _ C0 I1 S1) as C1.
+  set (p1 := drop_all (set_pending p (assoc_set a l1 (pending p))) old) in *.
+  destruct (drop_all_pq old (set_pending p (assoc_set a l1 (pending p)))) as [Pp1 Pq1]. fold p1 in Pp1, Pq1. cbn [pending queue set_pending] in Pp1, Pq1.
+  assert (H1 : lists_wf p1) by (apply (LW_pset p p1 a l1 H0 C1 Pq1 Pp1)). clearbody p1.
+  destruct (tl_filter o l1 (cur_balance p1 a) (maxgas p1)) as [[drops invs] l2] eqn:Fi. destruct (tl_filter_sub _ _ _ _ _ _ _ Fi) as (I2 & Iv & S2).
+  pose proof (lwf_sub _ _ _ C1 I2 S2) as C2.
+  set (p2 := drop_all (set_pending p1 (assoc_set a l2 (pending p1))) drops) in *.
+  destruct (drop_all_pq drops (set_pending p1 (assoc_set a l2 (pending p1)))) as [Pp2 Pq2]. fold p2 in Pp2, Pq2. cbn [pending queue set_pending] in Pp2, Pq2.
+  assert (H2 : lists_wf p2) by (apply (LW_pset p1 p2 a l2 H1 C2 Pq2 Pp2)). clearbody p2.
+  assert (H3 : lists_wf (fold_left (fun q x => snd (enqueue_tx q x)) invs p2)) by (apply enqueue_fold_LW; auto; eapply Forall_incl; [apply C1|exact Iv]).
+  set (p3 := fold_left (fun q x => snd (enqueue_tx q x)) invs p2) in *. clearbody p3.
+  apply bind_ok in H. destruct H as ([p4 l4] & E1 & E2).
+  assert (H4 : lists_wf p4).
+  { destruct ((0 <? tl_len l2) && match tl_get l2 (cur_nonce p a) with None => true | Some _ => false end); [|inversion E1; subst; auto].
+    destruct (tl_cap l2 0) as [[caps l3]|] eqn:C; [|discriminate]. inversion E1; subst; clear E1.
+    destruct (tl_cap_sub _ _ _ _ C) as (I4 & Ic & S4).
+    apply enqueue_fold_LW; [apply (LW_pset p3 _ a l4 H3 (lwf_sub _ _ _ C2 I4 S4)); reflexivity|eapply Forall_incl; [apply C2|exact Ic]]. }
+  inversion E2; subst. destruct (tl_empty l4); auto. eapply LW_pdel with (p := p4); eauto; reflexivity.
+Qed.
+Lemma add_insert_LW : forall p t local r p', lists_wf p -> nonce_ok t -> add_insert p t local = (r, p') -> lists_wf p'.
+Proof.
+  intros p t local r p' H0 Ht H. unfold add_insert in H.
+  assert (Henq : forall r p', match enqueue_tx p t with (inr e, p2) => (inr e, p2) | (inl rep, p2) => (inl rep, mark_local p2 (tfrom t) local) end = (r, p') -> lists_wf p').
+  { intros r0 p0 E. pose proof (enqueue_LW p t H0 Ht) as U. destruct (enqueue_tx p t) as [[rep|e] p2]; cbn [snd] in U; inversion E; subst; auto.
+    unfold mark_local. destruct local; exact U. }
+  destruct (assoc (tfrom t) (pending p)) as [l|] eqn:P; [|eapply Henq; eauto].
+  destruct (tl_overlaps l t); [|eapply Henq; eauto].
+  destruct (tl_add l t (c_bump (conf p))) as [[ins old] l'] eqn:E. destruct ins; [|inversion H; subst; auto].
+  inversion H; subst; clear H. pose proof (tl_add_lwf _ _ _ _ _ _ _ E (LW_plist _ _ _ H0 P) Ht) as C.
+  apply (LW_pset p _ (tfrom t) l' H0 C); destruct old; reflexivity.
+Qed.
+Lemma add_LW : forall o p t local r p', lists_wf p -> nonce_ok t -> add o p t local = (r, p') -> lists_wf p'.
+Proof.
+  intros o p t local r p' Hun Ht H. unfold add in H. destruct (assoc (thash t) (all p)); [inversion H; subst; auto|].
+  destruct (validate_tx p t local); [inversion H; subst; auto|].
+  match type of H with (if ?c then _ else _) = _ => destruct c end; [|eapply add_insert_LW; eauto].
+  destruct (priced_underpriced o (all p) (locals p) (pricedl p) t) as [u pr]. destruct u; [inversion H; subst; exact Hun|].
+  match type of H with (let '(_, _) := ?d in _) = _ => destruct d as [drop pr1] end.
+  eapply add_insert_LW; [|exact Ht|exact H]. apply remove_fold_LW. exact Hun.
+Qed.
+
+Lemma shrink_fold_LW : forall l (st r : pool * Z), lists_wf (fst st) ->
+  fold_res (fun (st : pool * Z) a => q <- shrink_one (fst st) a ;; Ok (q, (snd st - 1) mod two64)) l st = Ok r -> lists_wf (fst r).
+Proof.
+  intros l st r Hun H. eapply (fold_res_inv _ _ (fun st => lists_wf (fst st))); eauto.
+  intros a x a' Ha Hf. apply bind_ok in Hf. destruct Hf as (q & H1 & H2). inversion H2; subst. cbn [fst]. eapply shrink_one_LW; eauto.
+Qed.
+Lemma equalize_LW : forall fuel p cnt offs th r, lists_wf p -> equalize fuel p cnt offs th = Ok r -> lists_wf (fst r).
+Proof.
+  induction fuel as [|f IH]; intros p cnt offs th r Hun H; cbn [equalize] in H; [discriminate|].
+  apply bind_ok in H. destruct H as (n & _ & H).
+  destruct ((c_gslots (conf p) <? cnt) && (th <? n)); [|inversion H; subst; auto].
+  apply bind_ok in H. destruct H as (r1 & H1 & H2). eapply IH; [|exact H2]. eapply shrink_fold_LW; [|exact H1]. auto.
+Qed.
+Lemma spam_loop_LW : forall fuel o p cnt sp offs r, lists_wf p -> spam_loop fuel o p cnt sp offs = Ok r -> lists_wf (fst (fst r)).
+Proof.
+  induction fuel as [|f IH]; intros o p cnt sp offs r Hun H; cbn [spam_loop] in H; [discriminate|].
+  destruct (c_gslots (conf p) <? cnt); [|inversion H; subst; auto].
+  destruct (prque_pop o sp) as [[off rest]|]; [|inversion H; subst; auto].
+  destruct (1 <? Z.of_nat (length (offs ++ [off]))).
+  - apply bind_ok in H. destruct H as (th & _ & H). apply bind_ok in H. destruct H as (r1 & H1 & H2).
+    eapply IH; [|exact H2]. eapply equalize_LW; eauto.
+  - eapply IH; eauto.
+Qed.
+Lemma minimum_loop_LW : forall fuel p cnt offs r, lists_wf p -> minimum_loop fuel p cnt offs = Ok r -> lists_wf (fst r).
+Proof.
+  induction fuel as [|f IH]; intros p cnt offs r Hun H; cbn [minimum_loop] in H; [discriminate|].
+  apply bind_ok in H. destruct H as (n & _ & H).
+  destruct ((c_gslots (conf p) <? cnt) && (c_aslots (conf p) <? n)); [|inversion H; subst; auto].
+  apply bind_ok in H. destruct H as (r1 & H1 & H2). eapply IH; [|exact H2]. eapply shrink_fold_LW; [|exact H1]. auto.
+Qed.
+Lemma pe_pending_limit_LW : forall o p p', lists_wf p -> pe_pending_limit o p = Ok p' -> lists_wf p'.
+Proof.
+  intros o p p' Hun H. unfold pe_pending_limit in H. destruct (c_gslots (conf p) <? pending_count p); [|inversion H; subst; auto].
+  apply bind_ok in H. destruct H as ([[p1 cnt1] offs] & H1 & H2). apply spam_loop_LW in H1; auto. cbn [fst] in H1.
+  destruct ((c_gslots (conf p1) <? cnt1) && negb (match offs with [] => true | _ => false end)); [|inversion H2; subst; auto].
+  apply bind_ok in H2. destruct H2 as (r2 & H3 & H4). inversion H4; subst. eapply minimum_loop_LW; eauto.
+Qed.
+Lemma gq_loop_LW : forall o addrs p drop p', lists_wf p -> gq_loop o p addrs drop = Ok p' -> lists_wf p'.
+Proof.
+  induction addrs as [|a rest IH]; intros p drop p' Hun H; cbn [gq_loop] in H; [inversion H; subst; auto|].
+  destruct (0 <? drop); [|inversion H; subst; auto]. destruct (assoc a (queue p)) as [l|]; [|discriminate].
+  destruct (tl_len l <=? drop); eapply IH; try exact H; apply remove_fold_LW; auto.
+Qed.
+Lemma promote_executables_LW : forall o p accs p', lists_wf p -> promote_executables o p accs = Ok p' -> lists_wf p'.
+Proof.
+  intros o p accs p' Hun H. unfold promote_executables in H.
+  apply bind_ok in H. destruct H as (p1 & H1 & H). apply bind_ok in H. destruct H as (p2 & H2 & H3).
+  assert (U1 : lists_wf p1). { eapply (fold_res_inv _ _ lists_wf); [|exact Hun|exact H1]. intros; eapply pe_account_LW; eauto. }
+  assert (U2 : lists_wf p2) by (eapply pe_pending_limit_LW; eauto).
+  unfold pe_queue_limit in H3. destruct (c_gqueue (conf p2) <? queued_count p2); [|inversion H3; subst; auto]. eapply gq_loop_LW; eauto.
+Qed.
+Lemma demote_unexecutables_LW : forall o p p', lists_wf p -> demote_unexecutables o p = Ok p' -> lists_wf p'.
+Proof.
+  intros o p p' Hun H. unfold demote_unexecutables in H. eapply (fold_res_inv _ _ lists_wf); [|exact Hun|exact H].
+  intros; eapply demote_account_LW; eauto.
+Qed.
+Lemma set_gas_price_LW : forall o p g, lists_wf p -> lists_wf (set_gas_price o p g).
+Proof.
+  intros o p g Hun. unfold set_gas_price. match goal with |- context [priced_cap ?a ?b ?c ?d ?e] => destruct (priced_cap a b c d e) as [drop pr] end.
+  apply remove_fold_LW. exact Hun.
+Qed.
+Lemma add_tx_LW : forall o p t local e p', lists_wf p -> nonce_ok t -> add_tx o p t local = Ok (e, p') -> lists_wf p'.
+Proof.
+  intros o p t local e p' Hun Ht H. unfold add_tx in H. destruct (add o p t local) as [[rep|er] p1] eqn:A; pose proof (add_LW _ _ _ _ _ _ Hun Ht A) as U1.
+  - destruct rep; [inversion H; subst; auto|]. apply bind_ok in H. destruct H as (p2 & H1 & H2). inversion H2; subst. eapply promote_executables_LW; eauto.
+  - inversion H; subst; auto.
+Qed.
+
+(* ================================================================ pn_ok through every operation *)
+Lemma pn_frame : forall p q, pending q = pending p -> pnonce q = pnonce p -> cur q = cur p -> pn_ok p -> pn_ok q.
+Proof. intros p q A B C H a. specialize (H a). unfold pn_get, cur_nonce in *. rewrite A, B, C. exact H. Qed.
+Lemma enqueue_frame3 : forall p t, pending (snd (enqueue_tx p t)) = pending p /\ pnonce (snd (enqueue_tx p t)) = pnonce p /\ cur (snd (enqueue_tx p t)) = cur p.
+Proof. intros p t. unfold enqueue_tx. destruct (tl_add _ t (c_bump (conf p))) as [[ins old] l']. destruct ins; [destruct old|]; repeat split; reflexivity. Qed.
+Lemma enqueue_fold_frame3 : forall ex p, let q := fold_left (fun q x => snd (enqueue_tx q x)) ex p in
+  pending q = pending p /\ pnonce q = pnonce p /\ cur q = cur p.
+Proof.
+  induction ex as [|x ex IH]; intros p; cbn [fold_left]; [repeat split; reflexivity|].
+  destruct (enqueue_frame3 p x) as (A & B & C). destruct (IH (snd (enqueue_tx p x))) as (A' & B' & C'). cbv zeta. repeat split; congruence.
+Qed.
+Lemma drop_all_frame3 : forall D p, pnonce (drop_all p D) = pnonce p /\ cur (drop_all p D) = cur p.
+Proof. unfold drop_all. induction D as [|d D IH]; intros p; cbn [fold_left]; [split; reflexivity|]. destruct (IH (all_drop p (thash d))) as [A B]. rewrite A, B. split; reflexivity. Qed.
+
+Lemma run_from_cover : forall l c k, run_from c l -> c <= k < c + Z.of_nat (length l) -> exists y, In y l /\ tnonce y = k.
+Proof.
+  induction l as [|x l IH]; intros c k Hr Hk; cbn [length run_from] in *; [lia|]. destruct Hr as [Hx Hr].
+  destruct (Z.eq_dec k c) as [->|Hne]; [exists x; split; [left; auto|auto]|]. destruct (IH (c + 1) k Hr) as (y & Hy & E); [lia|]. exists y. split; [right; auto|auto].
+Qed.
+Lemma filter_none : forall A (f : A -> bool) l, (forall y, In y l -> f y = false) -> filter f l = [].
+Proof. induction l as [|z l IH]; intros H; cbn [filter]; auto. rewrite (H z (or_introl eq_refl)). apply IH. intros y Hy. apply H. right; auto. Qed.
+Lemma run_prefix : forall l c n, run_from c l -> run_from c (filter (fun x => tnonce x <? n) l) /\
+  (c <= n <= c + Z.of_nat (length l) -> Z.of_nat (length (filter (fun x => tnonce x <? n) l)) = n - c).
+Proof.
+  induction l as [|x l IH]; intros c n Hr; cbn [filter length run_from] in *; [split; [auto|lia]|]. destruct Hr as [Hx Hr].
+  destruct (IH (c + 1) n Hr) as [A B]. destruct (tnonce x <? n) eqn:E.
+  - cbn [run_from length]. split; [split; auto|]. intros Hn. rewrite Nat2Z.inj_succ. rewrite B; lia.
+  - assert (G : filter (fun y => tnonce y <? n) l = []).
+    { apply filter_none. intros y Hy. pose proof (run_from_bounds _ _ _ Hr Hy). lia. }
+    rewrite G. cbn. split; [auto|lia].
+Qed.
+
+Lemma filter_filter : forall A (f g : A -> bool) l, filter f (filter g l) = filter (fun x => g x && f x) l.
+Proof. induction l as [|x l IH]; cbn [filter]; auto. destruct (g x); cbn [filter andb]; [destruct (f x)|]; rewrite IH; auto. Qed.
+Lemma tl_remove_strict : forall o l t invs l', strict l = true -> tl_remove o l t = (true, invs, l') ->
+  items l' = filter (fun x => tnonce x <? tnonce t) (items l) /\ (exists y, In y (items l) /\ tnonce y = tnonce t).
+Proof.
+  intros o l t invs l' St H. unfold tl_remove in H. destruct (tl_get l (tnonce t)) as [y|] eqn:G; [|discriminate].
+  apply tl_get_some in G. rewrite St in H. inversion H; subst; clear H. cbn [items]. split; [|exists y; auto].
+  rewrite filter_filter. apply filter_ext. intros x. lia.
+Qed.
+Lemma pn_get_frame : forall p q b, pnonce q = pnonce p -> cur q = cur p -> pn_get q b = pn_get p b.
+Proof. intros p q b A B. unfold pn_get, cur_nonce. rewrite A, B. auto. Qed.
+
+Lemma remove_pn : forall o p h, lists_wf p -> pn_ok p -> pn_ok (remove_tx o p h).
+Proof.
+  intros o p h HL H. unfold remove_tx. destruct (assoc h (all p)) as [t|]; auto.
+  set (p1 := all_drop p h). assert (H1 : pn_ok p1) by exact H. assert (L1 : lists_wf p1) by exact HL.
+  assert (HQ : pn_ok (match assoc (tfrom t) (queue p1) with
+      | None => p1
+      | Some f => let '(_, _, f') := tl_remove o f t in
+                  if tl_empty f' then set_queue p1 (assoc_del (tfrom t) (queue p1)) else set_queue p1 (assoc_set (tfrom t) f' (queue p1))
+      end)).
+  { destruct (assoc (tfrom t) (queue p1)) as [f|]; auto. destruct (tl_remove o f t) as [[b invs] f']. destruct (tl_empty f'); exact H1. }
+  destruct (assoc (tfrom t) (pending p1)) as [pl|] eqn:P; [|exact HQ].
+  destruct (tl_remove o pl t) as [[b invs] pl'] eqn:R. destruct b; [|exact HQ].
+  set (a := tfrom t) in *. destruct (LW_plist _ _ _ L1 P) as [St _].
+  destruct (tl_remove_strict _ _ _ _ _ (St eq_refl) R) as [Hit (y & Hy & Hn)].
+  pose proof (H1 a) as Ha. rewrite P in Ha. destruct Ha as [Hr Hpn]. unfold tl_len in Hpn.
+  pose proof (run_from_bounds _ _ _ Hr Hy) as Hb. rewrite Hn in Hb.
+  destruct (run_prefix _ _ (tnonce t) Hr) as [Hr' Hlen]. rewrite <- Hit in Hr', Hlen. specialize (Hlen ltac:(lia)).
+  match goal with |- pn_ok (if _ then pn_set ?XX _ _ else _) => set (X := XX) end.
+  assert (HX : exists pb, pending X = pending pb /\ pnonce X = pnonce p1 /\ cur X = cur p1 /\
+              pending pb = (if tl_empty pl' then assoc_del a (pending p1) else assoc_set a pl' (pending p1))).
+  { subst X. match goal with |- context [fold_left _ invs ?PB] => exists PB; destruct (enqueue_fold_frame3 invs PB) as (A & B & C) end.
+    rewrite A, B, C. destruct (tl_empty pl'); repeat split; reflexivity. }
+  destruct HX as (pb & XA & XB & XC & PB).
+  assert (Hg : pn_get X a = pn_get p1 a) by (apply pn_get_frame; auto). rewrite Hg.
+  destruct (tnonce t <? pn_get p1 a) eqn:E; [|lia].
+  intros b. rewrite pn_get_set. change (pending (pn_set X a (tnonce t))) with (pending X). change (cur_nonce (pn_set X a (tnonce t)) b) with (cur_nonce X b).
+  assert (Hc : cur_nonce X b = cur_nonce p1 b) by (unfold cur_nonce; rewrite XC; auto). rewrite Hc, XA, PB.
+  destruct (Z.eq_dec b a) as [->|Hne].
+  - rewrite Z.eqb_refl. destruct (tl_empty pl') eqn:Em.
+    + rewrite assoc_del_same. apply tl_empty_items in Em. rewrite Em in Hlen. cbn in Hlen. lia.
+    + rewrite assoc_set_same. split; [exact Hr'|unfold tl_len; lia].
+  - destruct (b =? a) eqn:E2; [lia|]. rewrite (pn_get_frame p1 X b XB XC).
+    destruct (tl_empty pl'); [rewrite assoc_del_other by auto|rewrite assoc_set_other by auto]; apply (H1 b).
+Qed.
+Lemma remove_fold_W3 : forall o (l : list tx) p, lists_wf p -> pn_ok p -> pn_ok (fold_left (fun q t => remove_tx o q (thash t)) l p).
+Proof. induction l as [|x l IH]; intros p HL H; cbn [fold_left]; auto. apply IH; [apply remove_LW; auto|apply remove_pn; auto]. Qed.
+
+Lemma pn_get_promote : forall p a t, pn_get (promote_tx p a t) a = (tnonce t + 1) mod two64 \/ pn_get (promote_tx p a t) a = pn_get p a.
+Proof.
+  intros p a t. unfold promote_tx. destruct (tl_add _ t (c_bump (conf p))) as [[ins old] l']. destruct ins; [left|right; reflexivity].
+  rewrite pn_get_set, Z.eqb_refl. reflexivity.
+Qed.
+Lemma promote_fold_pn : forall a ready p, pn_ok p -> run_from (pn_get p a) ready -> Forall nonce_ok ready ->
+  pn_ok (fold_left (fun q t => promote_tx q a t) ready p).
+Proof.
+  induction ready as [|t ready IH]; intros p H Hr Hb; cbn [fold_left]; auto. cbn [run_from] in Hr. destruct Hr as [Ht Hr]. inversion Hb as [|? ? Bt Bb]; subst.
+  assert (Hp : pn_ok (promote_tx p a t)) by (apply promote_tx_pn; auto).
+  apply IH; auto.
+  assert (G : pn_get (promote_tx p a t) a = pn_get p a + 1).
+  { pose proof (Hp a) as Ha. pose proof (H a) as Ha0.
+    (* the virtual nonce after promoting at the virtual nonce: computed as in promote_tx_pn *)
+    unfold promote_tx in *. change (match assoc a (pending p) with Some l => l | None => new_txlist true end) with (list_of (pending p) a true) in *.
+    assert (Hl0 : run_from (cur_nonce p a) (items (list_of (pending p) a true)) /\ pn_get p a = cur_nonce p a + tl_len (list_of (pending p) a true)).
+    { unfold list_of. destruct (assoc a (pending p)); [exact Ha0|]. cbn. split; auto. lia. }
+    destruct Hl0 as [Hr0 Hp0]. unfold tl_len in Hp0.
+    assert (Gt : tl_get (list_of (pending p) a true) (tnonce t) = None).
+    { unfold tl_get. destruct (find (fun x => tnonce x =? tnonce t) (items (list_of (pending p) a true))) as [x|] eqn:F; auto.
+      apply find_some in F. destruct F as [Hx E]. pose proof (run_from_bounds _ _ _ Hr0 Hx). lia. }
+    unfold tl_add. rewrite Gt. cbn iota. rewrite pn_get_set, Z.eqb_refl. unfold nonce_ok in Bt. rewrite Z.mod_small by (unfold two64 in *; lia). lia. }
+  rewrite G. exact Hr.
+Qed.
+Lemma take_run_run : forall l m a b, Forall nonce_ok l -> take_run m l = (a, b) -> run_from m a.
+Proof.
+  induction l as [|x l IH]; intros m a b Hb H; cbn [take_run] in H; [inversion H; subst; exact I|]. inversion Hb as [|? ? Bx Bl]; subst.
+  destruct (tnonce x =? m) eqn:E; [|inversion H; subst; exact I].
+  destruct (take_run ((m + 1) mod two64) l) as [a' b'] eqn:T. inversion H; subst. cbn [run_from]. split; [lia|].
+  unfold nonce_ok in Bx. rewrite Z.mod_small in T by (unfold two64 in *; lia). eapply IH; eauto.
+Qed.
+
+Lemma pe_account_pn : forall o p a p', unique_nonce p -> lists_wf p -> pn_ok p -> pe_account o p a = Ok p' -> pn_ok p'.
+Proof.
+  intros o p a p' HU HL H0 H. unfold pe_account in H. destruct (assoc a (queue p)) as [l|] eqn:Q; [|inversion H; subst; auto].
+  pose proof (LW_qlist _ _ _ HL Q) as [_ B0].
+  destruct (tl_forward l (cur_nonce p a)) as [old l1] eqn:F. destruct (tl_forward_sub _ _ _ _ F) as [I1 _].
+  assert (Hge : forall x, In x (items l1) -> cur_nonce p a <= tnonce x).
+  { unfold tl_forward in F. inversion F; subst. cbn. intros x Hx. apply filter_In in Hx. lia. }
+  set (p1 := drop_all (set_queue p (assoc_set a l1 (queue p))) old) in *.
+  destruct (drop_all_pq old (set_queue p (assoc_set a l1 (queue p)))) as [Pp1 _]. destruct (drop_all_frame3 old (set_queue p (assoc_set a l1 (queue p)))) as [Pn1 Pc1].
+  fold p1 in Pp1, Pn1, Pc1. cbn [pending pnonce cur set_queue] in Pp1, Pn1, Pc1.
+  assert (H1 : pn_ok p1) by (eapply pn_frame; eauto).
+  assert (M1 : maxgas p1 = maxgas p) by (apply (fr_drop_all old (set_queue p (assoc_set a l1 (queue p))))). clearbody p1.
+  destruct (tl_filter o l1 (cur_balance p1 a) (maxgas p1)) as [[drops invs] l2] eqn:Fi. destruct (tl_filter_sub _ _ _ _ _ _ _ Fi) as (I2 & _ & _).
+  set (p2 := drop_all (set_queue p1 (assoc_set a l2 (queue p1))) drops) in *.
+  destruct (drop_all_pq drops (set_queue p1 (assoc_set a l2 (queue p1)))) as [Pp2 _]. destruct (drop_all_frame3 drops (set_queue p1 (assoc_set a l2 (queue p1)))) as [Pn2 Pc2].
+  fold p2 in Pp2, Pn2, Pc2. cbn [pending pnonce cur set_queue] in Pp2, Pn2, Pc2.
+  assert (H2 : pn_ok p2) by (eapply pn_frame; eauto). clearbody p2.
+  destruct (tl_ready l2 (pn_get p2 a)) as [ready l3] eqn:R. destruct (tl_ready_sub _ _ _ _ R) as (_ & Ir & _).
+  set (pb := set_queue p2 (assoc_set a l3 (queue p2))) in *.
+  assert (Hb : pn_ok pb) by exact H2.
+  assert (Bl2 : Forall nonce_ok (items l2)) by (eapply Forall_incl; [exact B0|]; intros x Hx; apply I1; apply I2; auto).
+  assert (Hrun : run_from (pn_get pb a) ready).
+  { change (pn_get pb a) with (pn_get p2 a). unfold tl_ready in R. destruct (items l2) as [|x r] eqn:E2; [inversion R; subst; exact I|].
+    destruct (pn_get p2 a <? tnonce x) eqn:E3; [inversion R; subst; exact I|].
+    destruct (take_run (tnonce x) (x :: r)) as [ra rb] eqn:T. inversion R; subst; clear R.
+    pose proof (take_run_run _ _ _ _ Bl2 T) as Hra.
+    (* the first queued nonce is the virtual nonce: below it everything from the chain nonce is pending *)
+    assert (Hx : tnonce x = pn_get p2 a).
+    { assert (Hxl : In x (items l)) by (apply I1; apply I2; left; auto).
+      assert (Hxg : cur_nonce p a <= tnonce x) by (apply Hge; apply I2; left; auto).
+      assert (Hpn2 : pn_get p2 a = pn_get p a) by (rewrite (pn_get_frame p1 p2 a Pn2 Pc2); apply pn_get_frame; auto).
+      destruct (Z.eq_dec (tnonce x) (pn_get p2 a)) as [|Hne]; auto. exfalso.
+      pose proof (H0 a) as Ha. destruct (assoc a (pending p)) as [pl|] eqn:P; [|lia]. destruct Ha as [Hr Hp].
+      destruct (run_from_cover _ _ (tnonce x) Hr) as (y & Hy & Ey); [unfold tl_len in Hp; lia|].
+      destruct HU as (_ & _ & HD). apply (HD a y x); [exists pl; auto|exists l; auto|auto]. }
+    rewrite <- Hx. exact Hra. }
+  assert (H3 : pn_ok (fold_left (fun q t => promote_tx q a t) ready pb)) by (apply promote_fold_pn; auto; eapply Forall_incl; [exact Bl2|exact Ir]).
+  set (p3 := fold_left (fun q t => promote_tx q a t) ready pb) in *. clearbody p3.
+  apply bind_ok in H. destruct H as ([p4 l4] & E1 & E2).
+  assert (H4 : pn_ok p4).
+  { destruct (memZ a (locals p3)); [inversion E1; subst; auto|].
+    destruct (tl_cap l3 (c_aqueue (conf p3))) as [[caps l4']|] eqn:C; [|discriminate]. inversion E1; subst; clear E1.
+    destruct (drop_all_pq caps (set_queue p3 (assoc_set a l4 (queue p3)))) as [Pp4 _]. destruct (drop_all_frame3 caps (set_queue p3 (assoc_set a l4 (queue p3)))) as [Pn4 Pc4].
+    eapply pn_frame; [exact Pp4|exact Pn4|exact Pc4|exact H3]. }
+  inversion E2; subst. destruct (tl_empty l4); exact H4.
+Qed.
+
+Lemma ins_replace_run : forall t l c y, run_from c l -> In y l -> tnonce y = tnonce t ->
+  run_from c (ins_tx t l) /\ length (ins_tx t l) = length l.
+Proof.
+  induction l as [|x l IH]; intros c y Hr Hy Hn; [destruct Hy|]. cbn [run_from] in Hr. destruct Hr as [Hx Hr]. cbn [ins_tx].
+  pose proof (run_from_bounds (x :: l) c y (conj Hx Hr) Hy) as Hb.
+  destruct (tnonce t <? tnonce x) eqn:E1; [lia|]. destruct (tnonce t =? tnonce x) eqn:E2.
+  - cbn [run_from length]. split; auto. split; [lia|auto].
+  - destruct Hy as [->|Hy]; [lia|]. destruct (IH (c + 1) y Hr Hy Hn) as [A B]. cbn [run_from length]. split; [split; auto|lia].
+Qed.
+Lemma add_insert_pn : forall p t local r p', unique_nonce p -> pn_ok p -> add_insert p t local = (r, p') -> pn_ok p'.
+Proof.
+  intros p t local r p' HU H0 H. unfold add_insert in H.
+  assert (Henq : forall r p', match enqueue_tx p t with (inr e, p2) => (inr e, p2) | (inl rep, p2) => (inl rep, mark_local p2 (tfrom t) local) end = (r, p') -> pn_ok p').
+  { intros r0 p0 E. destruct (enqueue_frame3 p t) as (A & B & C). destruct (enqueue_tx p t) as [[rep|e] p2]; cbn [snd] in *; inversion E; subst.
+    - unfold mark_local. destruct local; (eapply pn_frame; [| | |exact H0]; auto).
+    - eapply pn_frame; [| | |exact H0]; auto. }
+  destruct (assoc (tfrom t) (pending p)) as [l|] eqn:P; [|eapply Henq; eauto].
+  destruct (tl_overlaps l t) eqn:Ov; [|eapply Henq; eauto].
+  destruct (tl_add l t (c_bump (conf p))) as [[ins old] l'] eqn:E. destruct ins; [|inversion H; subst; auto].
+  inversion H; subst; clear H. pose proof (tl_add_ok _ _ _ _ _ E) as [Hit _].
+  unfold tl_overlaps in Ov. destruct (tl_get l (tnonce t)) as [y|] eqn:G; [|discriminate]. apply tl_get_some in G. destruct G as [Hy Hn].
+  pose proof (H0 (tfrom t)) as Ha. rewrite P in Ha. destruct Ha as [Hr Hp].
+  destruct (ins_replace_run t _ _ y Hr Hy Hn) as [Hr' Hlen]. rewrite <- Hit in Hr', Hlen.
+  intros b. match goal with |- match assoc b (pending ?Q) with _ => _ end => assert (Hq : pending Q = assoc_set (tfrom t) l' (pending p) /\ pnonce Q = pnonce p /\ cur Q = cur p) by (destruct old; repeat split; reflexivity) end.
+  destruct Hq as (A & B & C). rewrite A. unfold pn_get, cur_nonce. rewrite B, C. fold (cur_nonce p b). fold (pn_get p b).
+  destruct (Z.eq_dec b (tfrom t)) as [->|Hne].
+  - rewrite assoc_set_same. split; auto. unfold tl_len in *. rewrite Hlen. exact Hp.
+  - rewrite assoc_set_other by auto. apply (H0 b).
+Qed.
+
+(* W: the invariant for the ordering half of pending_executable *)
+Definition W (p : pool) : Prop := unique_nonce p /\ lists_wf p /\ pn_ok p.
+Lemma shrink_one_W : forall p a p', W p -> shrink_one p a = Ok p' -> W p'.
+Proof. intros p a p' (U & L & N) H. split; [eapply shrink_one_un; eauto|split; [eapply shrink_one_LW; eauto|eapply shrink_one_pn; eauto]]. Qed.
+Lemma remove_fold_W : forall o (l : list tx) p, W p -> W (fold_left (fun q t => remove_tx o q (thash t)) l p).
+Proof. intros o l p (U & L & N). split; [apply remove_fold_un; auto|split; [apply remove_fold_LW; auto|apply remove_fold_W3; auto]]. Qed.
+Lemma pe_account_W : forall o p a p', W p -> pe_account o p a = Ok p' -> W p'.
+Proof. intros o p a p' (U & L & N) H. split; [eapply pe_account_un; eauto|split; [eapply pe_account_LW; eauto|eapply pe_account_pn; eauto]]. Qed.
+
+Lemma shrink_fold_W : forall l (st r : pool * Z), W (fst st) ->
+  fold_res (fun (st : pool * Z) a => q <- shrink_one (fst st) a ;; Ok (q, (snd st - 1) mod two64)) l st = Ok r -> W (fst r).
+Proof.
+  intros l st r Hun H. eapply (fold_res_inv _ _ (fun st => W (fst st))); eauto.
+  intros a x a' Ha Hf. apply bind_ok in Hf. destruct Hf as (q & H1 & H2). inversion H2; subst. cbn [fst]. eapply shrink_one_W; eauto.
+Qed.
+Lemma equalize_W : forall fuel p cnt offs th r, W p -> equalize fuel p cnt offs th = Ok r -> W (fst r).
+Proof.
+  induction fuel as [|f IH]; intros p cnt offs th r Hun H; cbn [equalize] in H; [discriminate|].
+  apply bind_ok in H. destruct H as (n & _ & H).
+  destruct ((c_gslots (conf p) <? cnt) && (th <? n)); [|inversion H; subst; auto].
+  apply bind_ok in H. destruct H as (r1 & H1 & H2). eapply IH; [|exact H2]. eapply shrink_fold_W; [|exact H1]. auto.
+Qed.
+Lemma spam_loop_W : forall fuel o p cnt sp offs r, W p -> spam_loop fuel o p cnt sp offs = Ok r -> W (fst (fst r)).
+Proof.
+  induction fuel as [|f IH]; intros o p cnt sp offs r Hun H; cbn [spam_loop] in H; [discriminate|].
+  destruct (c_gslots (conf p) <? cnt); [|inversion H; subst; auto].
+  destruct (prque_pop o sp) as [[off rest]|]; [|inversion H; subst; auto].
+  destruct (1 <? Z.of_nat (length (offs ++ [off]))).
+  - apply bind_ok in H. destruct H as (th & _ & H). apply bind_ok in H. destruct H as (r1 & H1 & H2).
+    eapply IH; [|exact H2]. eapply equalize_W; eauto.
+  - eapply IH; eauto.
+Qed.
+Lemma minimum_loop_W : forall fuel p cnt offs r, W p -> minimum_loop fuel p cnt offs = Ok r -> W (fst r).
+Proof.
+  induction fuel as [|f IH]; intros p cnt offs r Hun H; cbn [minimum_loop] in H; [discriminate|].
+  apply bind_ok in H. destruct H as (n & _ & H).
+  destruct ((c_gslots (conf p) <? cnt) && (c_aslots (conf p) <? n)); [|inversion H; subst; auto].
+  apply bind_ok in H. destruct H as (r1 & H1 & H2). eapply IH; [|exact H2]. eapply shrink_fold_W; [|exact H1]. auto.
+Qed.
+Lemma pe_pending_limit_W : forall o p p', W p -> pe_pending_limit o p = Ok p' -> W p'.
+Proof.
+  intros o p p' Hun H. unfold pe_pending_limit in H. destruct (c_gslots (conf p) <? pending_count p); [|inversion H; subst; auto].
+  apply bind_ok in H. destruct H as ([[p1 cnt1] offs] & H1 & H2). apply spam_loop_W in H1; auto. cbn [fst] in H1.
+  destruct ((c_gslots (conf p1) <? cnt1) && negb (match offs with [] => true | _ => false end)); [|inversion H2; subst; auto].
+  apply bind_ok in H2. destruct H2 as (r2 & H3 & H4). inversion H4; subst. eapply minimum_loop_W; eauto.
+Qed.
+Lemma gq_loop_W : forall o addrs p drop p', W p -> gq_loop o p addrs drop = Ok p' -> W p'.
+Proof.
+  induction addrs as [|a rest IH]; intros p drop p' Hun H; cbn [gq_loop] in H; [inversion H; subst; auto|].
+  destruct (0 <? drop); [|inversion H; subst; auto]. destruct (assoc a (queue p)) as [l|]; [|discriminate].
+  destruct (tl_len l <=? drop); eapply IH; try exact H; apply remove_fold_W; auto.
+Qed.
+Lemma promote_executables_W : forall o p accs p', W p -> promote_executables o p accs = Ok p' -> W p'.
+Proof.
+  intros o p accs p' Hun H. unfold promote_executables in H.
+  apply bind_ok in H. destruct H as (p1 & H1 & H). apply bind_ok in H. destruct H as (p2 & H2 & H3).
+  assert (U1 : W p1). { eapply (fold_res_inv _ _ W); [|exact Hun|exact H1]. intros; eapply pe_account_W; eauto. }
+  assert (U2 : W p2) by (eapply pe_pending_limit_W; eauto).
+  unfold pe_queue_limit in H3. destruct (c_gqueue (conf p2) <? queued_count p2); [|inversion H3; subst; auto]. eapply gq_loop_W; eauto.
+Qed.
+Lemma set_gas_price_W : forall o p g, W p -> W (set_gas_price o p g).
+Proof.
+  intros o p g Hun. unfold set_gas_price. match goal with |- context [priced_cap ?a ?b ?c ?d ?e] => destruct (priced_cap a b c d e) as [drop pr] end.
+  apply remove_fold_W. exact Hun.
+Qed.
+Lemma add_W : forall o p t local r p', W p -> nonce_ok t -> add o p t local = (r, p') -> W p'.
+Proof.
+  intros o p t local r p' (U & L & N) Ht H. split; [eapply add_un; eauto|split; [eapply add_LW; eauto|]].
+  unfold add in H. destruct (assoc (thash t) (all p)); [inversion H; subst; auto|].
+  destruct (validate_tx p t local); [inversion H; subst; auto|].
+  match type of H with (if ?c then _ else _) = _ => destruct c end; [|eapply add_insert_pn; eauto].
+  destruct (priced_underpriced o (all p) (locals p) (pricedl p) t) as [u pr]. destruct u; [inversion H; subst; exact N|].
+  match type of H with (let '(_, _) := ?d in _) = _ => destruct d as [drop pr1] end.
+  eapply add_insert_pn; [| |exact H]; [apply remove_fold_un; exact U|apply remove_fold_W3; [exact L|exact N]].
+Qed.
+Lemma add_tx_W : forall o p t local e p', W p -> nonce_ok t -> add_tx o p t local = Ok (e, p') -> W p'.
+Proof.
+  intros o p t local e p' HW Ht H. unfold add_tx in H. destruct (add o p t local) as [[rep|er] p1] eqn:A; pose proof (add_W _ _ _ _ _ _ HW Ht A) as U1.
+  - destruct rep; [inversion H; subst; auto|]. apply bind_ok in H. destruct H as (p2 & H1 & H2). inversion H2; subst. eapply promote_executables_W; eauto.
+  - inversion H; subst; auto.
+Qed.
+(* head-free histories: submissions and price-threshold changes only (no reset) *)
+Definition head_free (x : op) : Prop := match x with OpReset _ _ _ => False | _ => True end.
+Lemma step_W : forall o p x p', W p -> head_free x -> Forall nonce_ok (op_txs x) -> step o p x = Ok p' -> W p'.
+Proof.
+  intros o p x p' HW Hh Hb H. destruct x; cbn [step op_txs] in *.
+  - inversion Hb as [|? ? Bt Bn]; subst. apply bind_ok in H. destruct H as ([e q] & G1 & G2). inversion G2; subst. eapply add_tx_W; eauto.
+  - inversion Hb as [|? ? Bt Bn]; subst. apply bind_ok in H. destruct H as ([e q] & G1 & G2). inversion G2; subst. eapply add_tx_W; eauto.
+  - inversion H; subst. apply set_gas_price_W; auto.
+  - destruct Hh.
+Qed.
+Theorem W_invariant : forall h p p', W p -> Forall (fun ox => head_free (snd ox) /\ Forall nonce_ok (op_txs (snd ox))) h -> run p h = Ok p' -> W p'.
+Proof.
+  induction h as [|[o x] h IH]; intros p p' HW Hh H; cbn [run] in H; [inversion H; subst; auto|].
+  inversion Hh as [|? ? [A B] Hh']; subst. apply bind_ok in H. destruct H as (p1 & H1 & H2). eapply IH; [|exact Hh'|exact H2]. eapply step_W; eauto.
+Qed.
+Lemma new_pool_W : forall c gp cur0 gas0, W (new_pool c gp cur0 gas0).
+Proof.
+  intros. split; [apply new_pool_un|split].
+  - split; cbn; intros a l H; discriminate.
+  - intros a. cbn. reflexivity.
+Qed.
+Theorem pn_ok_head_free : forall h c gp cur0 gas0 p',
+  Forall (fun ox => head_free (snd ox) /\ Forall nonce_ok (op_txs (snd ox))) h ->
+  run (new_pool c gp cur0 gas0) h = Ok p' -> pn_ok p'.
+Proof. intros h c gp cur0 gas0 p' Hh H. apply (W_invariant h _ _ (new_pool_W c gp cur0 gas0) Hh H). Qed.
